@@ -112,16 +112,46 @@ def features(b, line_action):
     return '+'.join(f) or '-'
 
 
-def execute(behaviours, d, timeout=1200):
+REAL_OPS = {'CreateStream', 'DeleteStream', 'Pause', 'Resume', 'SetReadonly', 'CreateGroup', 'JoinGroup', 'LeaveGroup'}
+
+
+def real_behaviours(behaviours, n, first_id):
+    """behaviours for the real one-node server: the operations the metadata leader API offers, real Raft
+    snapshots, restarts; everything else is dropped (validity of the rest does not depend on it)"""
+    out = []
+    for b in behaviours:
+        steps = [s for s in b['steps'] if (s['a'] == 'Apply' and s['o']['op'] in REAL_OPS) or s['a'] in ('Snapshot', 'Restart')]
+        ops = [s for s in steps if s['a'] == 'Apply']
+        if len(ops) < 4 or not any(s['a'] == 'Restart' for s in steps):
+            continue
+        if steps[-1]['a'] != 'Restart':
+            steps.append({'a': 'Restart'})
+        out.append({'id': first_id + len(out), 'cfg': {'groups': GROUPS}, 'steps': steps})
+        if len(out) >= n:
+            break
+    return out
+
+
+def execute(behaviours, d, timeout=1500, real=None):
     stim = os.path.join(d, 'stim.json')
     trace = os.path.join(d, 'trace.ndjson')
     core.write_json(stim, {'behaviours': behaviours})
     if os.environ.get('VERIF_KEEP'):
         core.log('stimuli at', stim)
-    rc, out, wall = core.go_test('server', '^TestVerifMetadataFSM$', {'VERIF_STIMULI': stim, 'VERIF_TRACE_OUT': trace},
-                                 timeout=timeout, subs=['c06'])
+    env = {'VERIF_STIMULI_FSM06': stim, 'VERIF_TRACE_OUT_FSM06': trace}
+    tests = 'TestVerifMetadataFSM'
+    if real:
+        rstim, rtrace = os.path.join(d, 'stim-real.json'), os.path.join(d, 'trace-real.ndjson')
+        core.write_json(rstim, {'behaviours': real})
+        env.update({'VERIF_STIMULI_REAL': rstim, 'VERIF_TRACE_OUT_REAL': rtrace})
+        tests += '|TestVerifMetadataRealRestart'
+    rc, out, wall = core.go_test('server', '^(%s)$' % tests, env, timeout=timeout, subs=['c06'])
     if rc != 0 or not os.path.exists(trace):
         raise core.Inconclusive('harness failed rc=%s: %s' % (rc, out[-3000:]))
+    if real:
+        # one trace file: the real-server behaviours follow
+        with open(trace, 'a') as fh, open(rtrace) as rf:
+            fh.write(rf.read())
     return trace
 
 
@@ -149,15 +179,22 @@ def judge(rep, behaviours, trace):
 
 
 FAMILIES_QUICK = [('MC_MetadataFSM.cfg', 'Sim_MetadataFSM.cfg', 350), ('MC_MetadataFSM_groups.cfg', 'Sim_MetadataFSM_groups.cfg', 350)]
-FAMILIES_THOROUGH = [('MC_MetadataFSM_thorough.cfg', 'Sim_MetadataFSM.cfg', 4000),
-                     ('MC_MetadataFSM_groups_thorough.cfg', 'Sim_MetadataFSM_groups.cfg', 4000)]
+FAMILIES_THOROUGH = [('MC_MetadataFSM_thorough.cfg', 'Sim_MetadataFSM.cfg', 2500),
+                     ('MC_MetadataFSM_groups_thorough.cfg', 'Sim_MetadataFSM_groups.cfg', 2500)]
 
 
 def run(rep, tier, seed, replay):
+    import time
+    t0 = time.time()
+
+    def lap(what):
+        core.log('C06 %-28s %6.1fs' % (what, time.time() - t0))
     if replay:
         behaviours = replay['replay']['behaviours']
+        real = [b for b in behaviours if b.get('real')]
+        behaviours = [b for b in behaviours if not b.get('real')]
         with core.scratch('c06') as d:
-            judge(rep, behaviours, execute(behaviours, d))
+            judge(rep, behaviours + real, execute(behaviours, d, real=real or None))
         rep.cov['rule'] = 'replay of a saved stimulus'
         rep.cov['samples'] = behaviours[:1]
         return
@@ -171,21 +208,37 @@ def run(rep, tier, seed, replay):
                                     % (mc, res['violated'], res['out'][-1500:]))
         sims = core.tlc_simulate('MC_MetadataFSM.tla', sim, num, 16, seed, timeout=1200)
         behaviours += from_sim(sims, len(behaviours) + 1)
-    fres = core.tlc_check('MC_MetadataFSM.tla', 'MC_MetadataFSM_finding.cfg', timeout=600)
-    rep.cov['design_checks'].append({'config': 'MC_MetadataFSM_finding', 'violated': fres['violated'],
-                                     'note': 'expected: a known restart divergence of the consumer groups is reachable'})
-    g = graph.tlc_dump('MC_MetadataFSM.tla', 'MC_MetadataFSM_replay.cfg' if quick else 'MC_MetadataFSM_replay_thorough.cfg',
-                       workers=min(core.NCPU, 8), timeout=1500)
-    gb, covered, total = from_graph(g, len(behaviours) + 1)
-    behaviours += gb
+        lap('design + simulation ' + mc[:-4])
+    # the open findings must stay reachable in the model (otherwise the model lost them)
+    for cfg, prop in (('MC_MetadataFSM_finding.cfg', 'A_RS_GroupEpoch'), ('MC_MetadataFSM_finding2.cfg', 'A_RS_GroupAsg')):
+        fres = core.tlc_check('MC_MetadataFSM.tla', cfg, timeout=600, workers=4)
+        rep.cov['design_checks'].append({'config': cfg[:-4], 'violated': fres['violated'],
+                                         'note': 'expected: %s violated (open known finding reachable in the model)' % prop})
+        if prop not in fres['violated']:
+            raise core.Inconclusive('model no longer reproduces the open finding %s: %s' % (prop, fres['out'][-1000:]))
+    lap('finding configs')
+    covered = total = 0
+    for cfg in (['MC_MetadataFSM_replay.cfg'] if quick else ['MC_MetadataFSM_replay_streams.cfg', 'MC_MetadataFSM_replay_groups.cfg']):
+        g = graph.tlc_dump('MC_MetadataFSM.tla', cfg, workers=min(core.NCPU, 8), timeout=1500)
+        gb, cv, tt = from_graph(g, len(behaviours) + 1)
+        behaviours += gb
+        covered, total = covered + cv, total + tt
+    lap('dot dump + cover')
+    real = real_behaviours(behaviours, 2 if quick else 12, len(behaviours) + 1)
+    for b in real:
+        b['real'] = True
+    rep.cov['real_server_restart_behaviours'] = len(real)
     with core.scratch('c06') as d:
-        tr = judge(rep, behaviours, execute(behaviours, d))
+        trace = execute(behaviours, d, real=real or None)
+        lap('execution of %d behaviours (+%d on a real one-node server)' % (len(behaviours), len(real)))
+        tr = judge(rep, behaviours + real, trace)
+    lap('trace validation')
     rep.cov['transitions_of_replay_model'] = total
     rep.cov['transitions_replayed'] = covered
     rep.cov['exhaustive'] = covered == total
-    rep.cov['traces_validated_against_impl'] = len(behaviours)
+    rep.cov['traces_validated_against_impl'] = len(behaviours) + len(real)
     rep.cov['trace_lines_validated'] = tr['validated']
-    rep.cov['evaluations'] = len(behaviours)
+    rep.cov['evaluations'] = len(behaviours) + len(real)
     rep.cov['distinct_nontrivial'] = len({key(b) for b in behaviours if nontrivial(b)})
     rep.cov['rule'] = ('behaviours = seeded TLC simulation of two scenario families of MC_MetadataFSM (stream operations; '
                        'consumer groups with stream deletion/re-creation), each continued to the end of a started '
